@@ -566,7 +566,8 @@ func (c *chainImporter) check(rel string) (*types.Package, error) {
 			files = append(files, p.Files[fn])
 		}
 	}
-	info := &types.Info{Types: map[ast.Expr]types.TypeAndValue{}, Defs: map[*ast.Ident]types.Object{}, Uses: map[*ast.Ident]types.Object{}}
+	info := &types.Info{Types: map[ast.Expr]types.TypeAndValue{}, Defs: map[*ast.Ident]types.Object{}, Uses: map[*ast.Ident]types.Object{},
+		Selections: map[*ast.SelectorExpr]*types.Selection{}} // Selections: used by the v2 pass only (slices.go)
 	conf := types.Config{Importer: c, Error: func(error) {}, FakeImportC: true}
 	p, _ := conf.Check(full, c.fset, files, info)
 	c.cache[full] = p
@@ -579,6 +580,8 @@ func main() {
 	repo := flag.String("repo", "/repo", "repository root")
 	out := flag.String("out", "", "output Gen.v path")
 	manifest := flag.String("manifest", "", "output JSON listing of translated items")
+	out2 := flag.String("out2", "", "v2 (byte slices, loops): output Gen2.v path; the v2 pass runs only when this flag is given")
+	manifest2 := flag.String("manifest2", "", "v2: output JSON listing of translated items")
 	flag.Parse()
 
 	fset := token.NewFileSet()
@@ -733,5 +736,10 @@ func main() {
 	if *manifest != "" {
 		js, _ := json.MarshalIndent(items, "", " ")
 		_ = os.WriteFile(*manifest, js, 0o644)
+	}
+	if *out2 != "" { // v2 pass: after Gen.v has been written, never touches it
+		if rc := runV2(ci, *repo, *out2, *manifest2); rc != 0 {
+			os.Exit(rc)
+		}
 	}
 }
